@@ -561,7 +561,11 @@ def _r16_hook(case, c, base):
             refill(d, new)
         before = json.dumps(d, sort_keys=True)
         a1 = hook(d)
-        a2 = hook(d)                             # the same object a second time
+        try:
+            a2 = hook(d)                         # the same object a second time
+        except Exception as e:
+            return ('R16:hook:second-call-on-same-object-raises',
+                    '%s: %s (the dict is now %s)' % (type(e).__name__, str(e)[:80], json.dumps(d, sort_keys=True)[:120]))
         if json.dumps(d, sort_keys=True) != before:
             return 'R16:hook:modifies-argument', 'the dict changed from %s to %s' % (before[:120], json.dumps(d, sort_keys=True)[:120])
         ref = hook(copy.deepcopy(new))
@@ -756,7 +760,8 @@ def _r16_sim(case, c, base):
         misc_r.update(bufs['V'])
         if not case.get('same_name'):
             p['k'] = k
-        s.current_rep = k
+        if not case.get('acc'):
+            s.current_rep = k
         now = c.sim_state(s, fname=False)
         if prev is not None and now != prev:
             note('oracle:R16:refill-visible-through-object')
@@ -972,7 +977,8 @@ def corr_refill(ctx, b, case):
             misc_r.update(bufs['V'])
             if not case.get('same_name'):
                 p['k'] = k
-            s.current_rep = k
+            if not case.get('acc'):
+                s.current_rep = k
             step_no[0] += 1
         advance()
         for k in range(1, len(case['fills'])):
